@@ -26,7 +26,12 @@ type C07 struct {
 	// unit" clauses are only evaluated in the ordinary stratum; exact clauses always are.
 	SkipSoftWhenInexact bool
 	skippedSoft         int
+	// what each open order's seller asked for, from the successful Sell / UpdateSellOrders messages
+	asked    map[uint64]sdkCoin
+	askBinds int
 }
+
+type sdkCoin struct{ denom, amount string }
 
 func NewC07(k *KnownSet) *C07 {
 	return &C07{Base: Base{"C07"}, Known: k, nontrivial: strset{}, breakdown: counter{}}
@@ -42,7 +47,62 @@ func withinUnits(got *big.Int, exact *big.Rat, n int) bool {
 	return d.Cmp(big.NewRat(int64(n), 1)) <= 0
 }
 
+// trackAsks: the price an order settles at is the one its seller asked for. The order row only names
+// a market, so the denomination is checked against the seller's own message: after every successful
+// transaction each open order whose ask is known must sit in a market of exactly that denomination,
+// with exactly that amount.
+func (m *C07) trackAsks(e *eng.Engine, t *eng.TxRec) {
+	if !t.OK {
+		return
+	}
+	if m.asked == nil {
+		m.asked = map[uint64]sdkCoin{}
+	}
+	post := t.Post.V()
+	for i, msg := range t.Msgs {
+		switch x := msg.(type) {
+		case *markettypes.MsgSell:
+			if i >= len(t.Resps) {
+				continue
+			}
+			r, ok := t.Resps[i].(*markettypes.MsgSellResponse)
+			if !ok || len(r.SellOrderIds) != len(x.Orders) {
+				continue
+			}
+			for j, o := range x.Orders {
+				if o.AskPrice != nil {
+					m.asked[r.SellOrderIds[j]] = sdkCoin{o.AskPrice.Denom, o.AskPrice.Amount.String()}
+				}
+			}
+		case *markettypes.MsgUpdateSellOrders:
+			for _, u := range x.Updates {
+				if u.NewAskPrice != nil {
+					m.asked[u.SellOrderId] = sdkCoin{u.NewAskPrice.Denom, u.NewAskPrice.Amount.String()}
+				}
+			}
+		}
+	}
+	for id, a := range m.asked {
+		o := post.Orders[id]
+		if o == nil {
+			delete(m.asked, id)
+			continue
+		}
+		m.askBinds++
+		mk := post.Markets[o.MarketId]
+		if mk == nil || mk.BankDenom != a.denom || o.AskAmount != a.amount {
+			got := "a missing market"
+			if mk != nil {
+				got = o.AskAmount + " " + mk.BankDenom
+			}
+			e.Violate(m.P, "order-ask-binding", fmt.Sprintf("tx step %d (%s): sell order %d was listed by its seller at %s %s but is stored at %s (market %d)", t.Step, t.Tag, id, a.amount, a.denom, got, o.MarketId))
+			delete(m.asked, id) // report once
+		}
+	}
+}
+
 func (m *C07) AfterTx(e *eng.Engine, t *eng.TxRec) {
+	m.trackAsks(e, t)
 	if !t.OK || len(t.Msgs) != 1 {
 		return
 	}
@@ -417,6 +477,7 @@ func (m *C07) Finish(e *eng.Engine, cov map[string]interface{}) {
 	cov["_keys"] = sortedStr(m.nontrivial)
 	cov["rule"] = "one evaluation = one fill of a successful single-message BuyDirect checked against the exact-rational reference computed from the pre-state order, fee params and request (credits, guards, coins, frame); non-trivial = distinct (quantity, ask, buyer rate, seller rate) with fractional quantity, both fee rates non-zero and truncation actually dropping a fraction"
 	cov["successful_buy_direct_messages"] = m.buys
+	cov["open_order_ask_bindings_checked"] = m.askBinds
 	cov["fills_breakdown"] = m.breakdown.JSON()
 	cov["messages_in_extreme_stratum"] = m.extreme
 	cov["known_finding_hits"] = m.knownHits
